@@ -195,10 +195,17 @@ def split_of(s):
     return s.imol['l'].to_array().copy(), s.imol['L'].to_array().copy()
 
 
-def pair_resid(a, b, F, rtol, ordered):
-    """Largest |a-b| / (rtol*max(|a|,|b|) + ATOL_F*F) over both phases; unordered = best of both labelings."""
+def pair_resid(a, b, F, rtol, ordered, g_tol=None):
+    """Largest |a-b| / (rtol*max(|a|,|b|) + ATOL_F*F [+ resolution]) over both phases; unordered = best of both
+    labelings.  For the Gibbs-energy minimisers (g_tol = stopping tolerance on G/RT per mole of feed) moving an
+    amount d of a chemical whose smaller phase amount is n raises G*F by about d**2 / (2 n), so amounts are only
+    resolved to sqrt(2 g_tol n F): that is added to the denominator (it matters for trace amounts only)."""
+    res = 0.0
+    if g_tol is not None:
+        res = np.sqrt(2.0 * g_tol * F * np.maximum(np.minimum(a[0], a[1]), 0.0))
+
     def d(p, q):
-        den = rtol * np.maximum(np.abs(p), np.abs(q)) + ATOL_F * F
+        den = rtol * np.maximum(np.abs(p), np.abs(q)) + ATOL_F * F + res
         return float((np.abs(p - q) / den).max())
     same = max(d(a[0], b[0]), d(a[1], b[1]))
     if ordered:
@@ -403,7 +410,7 @@ def _lle_fresh(ch, ctx, methods):
     l2, L2 = lle_call(ctx, s2, T, P, top, True, region, method)
     ordered = top is not None and feed[names.index(top)] > 0
     rtol = SCALE_RTOL if mtag == 'pseudo' else SCALE_RTOL_GLOBAL
-    res = pair_resid((l * k, L * k), (l2, L2), F * k, rtol, ordered)
+    res = pair_resid((l * k, L * k), (l2, L2), F * k, rtol, ordered, None if mtag == 'pseudo' else G_TOL_GLOBAL)
     if trivial and trivial_split(l2, L2, feed * k):
         res = 0.0                                   # the same single liquid both times
     ctx.metric_max(f'lle.scale:{mtag}:resid/tol', res)
